@@ -2,6 +2,7 @@
    file, NewMapsFromJsonFile on the bytes of the file. -/
 import Driver.OpsXml
 import Mxj.Model.FilesXml
+import Mxj.Model.Bulk
 namespace Mxj.Drv
 open Mxj Mxj.Proto
 
@@ -22,5 +23,15 @@ def opXfile : P Out := do
 def opJfile : P Out := do
   let s ← pStr; pEnd
   pure (showRead (Files.readMapsJson (s.length + 2) (Stream.plain s) []))
+
+def showBulk (r : Files.BulkRes) : String :=
+  "ok " ++ showVal (.list r.maps) ++ " errs=" ++ toString r.errs ++
+    (if r.failed then " failed" else " done")
+
+/-- `jbulk cont budget bytes`: `HandleJsonReader` over the bytes; `cont` (0|1) is what the error
+    handler returns, the map handler returns false on its `budget`-th call (0 = never) -/
+def opJbulk : P Out := do
+  let cont ← pBool; let budget ← pNat; let s ← pStr; pEnd
+  pure (showBulk (Files.handleJson cont (s.length + 2) budget (Stream.plain s) [] 0))
 
 end Mxj.Drv
